@@ -9,7 +9,10 @@
    case [103; room; [stmt ...]] -> the stack model of the two stages (Lang/NestDepth.v with the constants measured on the current
                                  source, Gen/NestDepth.v) on a program tree (stmt = [0; leaf] | [1; slot; [stmt ...]]):
                                  [frames parse() needs; frames emit() needs; outcome of the pipeline with `room` frames:
-                                  0 firmware / 1 clean ValueError from parse() / 2 RecursionError from emit()]
+                                  0 firmware / 1 clean ValueError from parse() / 2 RecursionError from emit() / 3 clean ValueError
+                                  from emit() - with the guard of emit() as observed on the current source]
+   case [104]                  -> facts about the regenerated tables, for the evidence: [emit() guarded?; emit's constants dominated
+                                 by parse's?; [indices of the simple statements emit() needs more frames for than parse()]]
    (a unit of its own - Wire/C11W.v stays the evaluator wire shared with C03 - because the extraction flattens names) *)
 From Coq Require Import ZArith List Bool.
 From RV Require Import Base.Wire Lang.Regex Gen.Regexes Lang.FoldSession Lang.VariantCost Lang.NestDepth Gen.NestDepth.
@@ -81,9 +84,12 @@ Definition run (v : wv) : wv :=
   match v with
   | WL [WI 103; WI room; WL ts] =>
       match dec_all dec_stmt ts with
-      | Some p => WL [WI (need_prog parse_stage p); WI (need_prog emit_stage p); WI (pipeline parse_stage emit_stage room p)]
+      | Some p => WL [WI (need_prog parse_stage p); WI (need_prog emit_stage p); WI (pipeline emit_guarded parse_stage emit_stage room p)]
       | None => wbad
       end
+  | WL [WI 104] =>
+      WL [wbool emit_guarded; wbool (blocks_dominated parse_stage emit_stage);
+          WL (map (fun l => WI (Z.of_nat l)) (fat_leaves parse_stage emit_stage))]
   | WL [WI 102; WI ua; WL items] =>
       match dec_all dec_item items with
       | Some p => let s := vrun (negb (ua =? 0)) 400 p in WL [wbool (oof s); WL (map enc_parse (rev (trace s)))]
